@@ -57,10 +57,10 @@ func TestVerifSlotRaft(t *testing.T) {
 			defer os.RemoveAll(d)
 		}
 	}
-	traces := env.Pick(6, 60)
-	steps := env.Pick(32, 60)
+	traces := env.Pick(6, 30)
+	steps := env.Pick(32, 50)
 	rng := env.Rand()
-	scenarios := env.Pick(2, 6)
+	scenarios := env.Pick(2, 4)
 	if os.Getenv("VERIF_SLOTRAFT_PARTS") == "random" { // mutation trials: random driver only
 		scenarios = 0
 	}
@@ -459,8 +459,19 @@ func randomTrace(rng *rand.Rand, rep *kit.Report, tr *tracer, dir string, idx, s
 				// kill at a storage / state-machine call of the pipeline
 				kinds := [][]string{{"apply"}, {"save", "savesnap"}, {"mark", "apply"}, {"save", "apply", "mark", "savesnap", "restore", "snap"}, {"savesnap", "snap", "restore"}}[rng.Intn(5)]
 				n.arm(1+rng.Intn(4), rng.Intn(2) == 0, kinds...)
-				proposeSomewhere(slot, 2+rng.Intn(4))
-				if waitUntil(time.Duration(300+rng.Intn(400))*time.Millisecond, n.isDead) {
+				// keep the pipeline of that node busy until the armed call comes by
+				for k := 0; k < 12 && !n.isDead(); k++ {
+					proposeSomewhere(slot, 1+rng.Intn(3))
+					if k == 4 && manualCompaction {
+						if rt := n.runtime(); rt != nil {
+							cctx, ccancel := context.WithTimeout(context.Background(), time.Second)
+							_, _ = rt.CompactLog(cctx, multiraft.SlotID(slot))
+							ccancel()
+						}
+					}
+					waitUntil(et, n.isDead)
+				}
+				if waitUntil(time.Duration(100+rng.Intn(200))*time.Millisecond, n.isDead) {
 					rep.Cover("Kill@" + n.killedAtSafe())
 				} else {
 					n.disarm()
@@ -538,6 +549,20 @@ func randomTrace(rng *rand.Rand, rep *kit.Report, tr *tracer, dir string, idx, s
 		rep.AddExtra("traces_converged", 1)
 	} else {
 		rep.AddExtra("traces_not_converged", 1)
+		if os.Getenv("VERIF_SLOTRAFT_DEBUG") != "" {
+			for _, s := range cfg.slots {
+				for _, id := range c.ids {
+					n := c.nodes[id]
+					st, ok := c.status(n, s)
+					var serr error
+					if rt := n.runtime(); rt != nil {
+						_, serr = rt.Status(multiraft.SlotID(s))
+					}
+					fmt.Fprintf(os.Stderr, "NOTCONVERGED trace %d cfg %+v slot %d node %d ok=%v err=%v role=%v leader=%d term=%d commit=%d applied=%d smlen=%d dead=%v\n",
+						idx, cfg, s, id, ok, serr, st.Role, st.LeaderID, st.Term, st.CommitIndex, st.AppliedIndex, n.smLen(s), n.isDead())
+				}
+			}
+		}
 	}
 	c.close()
 	cancel()
